@@ -60,3 +60,7 @@ def run(ctx):
     ctx.bounds["decoding"] = "every byte string of length <= 3"
     ctx.bounds["paths"] = "4 working directories x 20 ways of naming a file or directory x (one | two arguments) x quiet"
     ctx.run_xh(jobs)
+    # the ambiguity error (ValueError 'Multiple transitions found!') for ALL token texts and nesting depths: the C15 fixpoint, run here as well
+    # because totality depends on it (signatures `ambiguous:...`)
+    from checks import C15
+    C15.run(ctx)
